@@ -4,7 +4,7 @@
    expressed in this interleaving theory (the C++ memory model itself, the internals of the multi-threaded planners)
    is exercised by the stress driver and labelled so in the evidence. *)
 From Coq Require Import List ZArith Bool Arith.
-From OmplV Require Import ThreadModel ThreadProofs.
+From OmplV Require Import ThreadModel ThreadProofs RrtModel RrtProofs ParRrtModel ParRrtProofs.
 Import ListNotations.
 
 (* atomic read-modify-write increments: under EVERY interleaving the counter equals the number of calls made *)
@@ -37,6 +37,24 @@ Proof. exact terminate_sticks. Qed.
 Theorem C19_cached_only_terminate_refuted : prun false true false (mkP false false) [PTerminate; PThreadStore false; PEval] = [false].
 Proof. exact cached_only_design_refuted. Qed.
 
+(* the parallel RRT (geometric::pRRT): workers share one tree; reading the nearest node, appending a motion (whose parent is the node
+   read earlier) and updating the shared solution record are each one critical section (obligation prrt_atomic_steps of the
+   translator), everything else a worker does is on its own data.  For EVERY schedule of these atomic steps of any number of
+   workers, every sampler and every validator: what solve() reports after joining the workers starts at a start state and consists
+   of motions their threads validated; an exact report ends in a state the goal accepts *)
+Theorem C19_parallel_rrt_reports_real_paths_under_every_interleaving :
+  forall (St D I : Type) (dlt : D -> D -> bool) select (extend : St -> I -> option St) sat gdist (dflt : St) (Ok : St -> St -> Prop),
+  (forall n i d, extend n i = Some d -> Ok n d) -> (forall tree i, tree <> [] -> (select tree i < length tree)%nat) ->
+  forall starts sched, starts <> [] ->
+  match par_report St D (par_run St D I dlt select extend sat gdist dflt starts sched) with
+  | Some (path, approx) =>
+      path <> [] /\ (exists s0, hd (None, dflt) path = (None, s0) /\ In s0 starts) /\ pathOk St unit (pEdge St Ok) path /\
+      (approx = false -> sat (snd (last path (None, dflt))) = true)
+  | None => True
+  end.
+Proof. exact par_report_spec. Qed.
+
+Print Assumptions C19_parallel_rrt_reports_real_paths_under_every_interleaving.
 Print Assumptions C19_terminate_from_another_thread_sticks.
 Print Assumptions C19_cached_only_terminate_refuted.
 Print Assumptions C19_atomic_counters_exact.
@@ -47,7 +65,16 @@ Print Assumptions C19_config_ok_counts_exact.
 
 Example C19_nonvacuous :
   shared (crun [AInc 0; AInc 1; AInc 0; AInc 2]) = 4 /\
-  config_ok (mkCfg true true true true true true true true true) = true /\ config_ok (mkCfg false true true true true true true true true) = false /\
+  config_ok (mkCfg true true true true true true true true true true) = true /\ config_ok (mkCfg false true true true true true true true true true) = false /\
   prun true true false (mkP false false) [PEval; PThreadStore true; PEval; PThreadStore false; PEval; PTerminate; PThreadStore false; PEval] = [false; true; false; true] /\
   lrun nat nat nat (fun s o => (s + o, s)) 0 [(0, 5); (1, 7); (0, 1)] = (13, [(0, 0); (1, 5); (0, 12)]).
 Proof. vm_compute. repeat split. Qed.
+
+(* two workers on the integer line (steps of at most 3, 7 invalid): both read the tree before either appends, so both new motions hang
+   off the root; the second worker's state satisfies the goal *)
+Example C19_parallel_rrt_nonvacuous :
+  let ext := fun (n r : Z) => let d := (if (3 <? Z.abs (r - n))%Z then (if (n <? r)%Z then n + 3 else n - 3)%Z else r) in if (d =? 7)%Z then None else Some d in
+  let s := par_run Z Z Z Z.ltb (fun tree r => nearest Z Z unit (fun a b => Z.abs (a - b)) Z.ltb tree r) ext (fun s => (s =? 3)%Z) (fun s => Z.abs (s - 3)) 0%Z [0%Z]
+                [ESel Z 1 (-5)%Z; ESel Z 2 9%Z; EAdd Z 2; EAdd Z 1; EGoal Z 1; EGoal Z 2] in
+  (q_tree _ _ s, par_report _ _ s) = ([(0%Z, None); (3%Z, Some (0%nat, tt)); ((-3)%Z, Some (0%nat, tt))], Some ([(None, 0%Z); (Some tt, 3%Z)], false)).
+Proof. vm_compute. reflexivity. Qed.
